@@ -190,6 +190,63 @@ func Free(c *core.Ctx, rule string, pkgs []*packages.Package) {
 				}
 				checkParams(fd.Type, "")
 				// (b), (d)
+				// `var ret Tuple[A, B]` followed at once by one assignment to each of its fields is a composite literal
+				// written out: nothing of the zero value survives
+				fullyInit := map[types.Object]bool{}
+				ast.Inspect(fd.Body, func(x ast.Node) bool {
+					blk, ok := x.(*ast.BlockStmt)
+					if !ok {
+						return true
+					}
+					for i, st := range blk.List {
+						ds, ok := st.(*ast.DeclStmt)
+						if !ok {
+							continue
+						}
+						gd, ok := ds.Decl.(*ast.GenDecl)
+						if !ok || len(gd.Specs) != 1 {
+							continue
+						}
+						vs, ok := gd.Specs[0].(*ast.ValueSpec)
+						if !ok || len(vs.Values) != 0 || len(vs.Names) != 1 {
+							continue
+						}
+						v, _ := info.Defs[vs.Names[0]].(*types.Var)
+						if v == nil {
+							continue
+						}
+						stt, ok := v.Type().Underlying().(*types.Struct)
+						if !ok || stt.NumFields() == 0 {
+							continue
+						}
+						assigned := map[string]bool{}
+						good := true
+						for j := i + 1; j < len(blk.List) && len(assigned) < stt.NumFields(); j++ {
+							as, ok := blk.List[j].(*ast.AssignStmt)
+							if !ok || as.Tok != token.ASSIGN || len(as.Lhs) != 1 || len(as.Rhs) != 1 {
+								good = false
+								break
+							}
+							sel, ok := as.Lhs[0].(*ast.SelectorExpr)
+							if !ok || objOf(info, sel.X) != types.Object(v) || assigned[sel.Sel.Name] {
+								good = false
+								break
+							}
+							if nodeContains(as.Rhs[0], true, func(y ast.Node) bool {
+								id, ok := y.(*ast.Ident)
+								return ok && info.Uses[id] == types.Object(v)
+							}) {
+								good = false
+								break
+							}
+							assigned[sel.Sel.Name] = true
+						}
+						if good && len(assigned) == stt.NumFields() {
+							fullyInit[v] = true
+						}
+					}
+					return true
+				})
 				ast.Inspect(fd.Body, func(x ast.Node) bool {
 					switch s := x.(type) {
 					case *ast.FuncLit:
@@ -202,7 +259,7 @@ func Free(c *core.Ctx, rule string, pkgs []*packages.Package) {
 					case *ast.ValueSpec:
 						if len(s.Values) == 0 {
 							for _, nm := range s.Names {
-								if v, ok := info.Defs[nm].(*types.Var); ok && containsTypeParam(v.Type(), 0) {
+								if v, ok := info.Defs[nm].(*types.Var); ok && containsTypeParam(v.Type(), 0) && !fullyInit[v] {
 									add(nm.Pos(), "declares zero-initialised "+nm.Name+" of parametric type "+v.Type().String()+" (fabricated value)")
 								}
 							}
